@@ -23,7 +23,7 @@ type resetEngine struct {
 	objType    *types.Named
 	coupleMemo map[string]bool
 	p          *core.Prog
-	sum map[*ssa.Function]map[int]*resetSummary
+	sum        map[*ssa.Function]map[int]*resetSummary
 }
 
 type resetSummary struct {
